@@ -160,6 +160,70 @@ theorem refines_getSlice (a : DynArray) (h : Inv a) (s e : Option Int) :
     have e2 : B - A = 0 := by omega
     rw [e1, e2]; simp
 
+/-- `a[s:e] = rows` with as many rows as the list slice `a[s:e]` holds: the list's slice assignment; never raises. -/
+theorem refines_setSlice (a : DynArray) (h : Inv a) (s e : Option Int) (items : List Row)
+    (hlen : items.length = (Py.slice a.abs s e).length) :
+    ∃ a', a.setSlice s e items = .ok a' ∧ Py.setSlice a.abs s e items = some a'.abs ∧ Inv a' := by
+  have hc := n_cast a h
+  have hn : a.n ≤ a.array.length := h.fits
+  have hl := abs_length a h
+  have hB : Py.stopIdx a.n e ≤ a.n := by
+    cases e with
+    | none => simp [Py.stopIdx]
+    | some x => exact clampIdx_le _ _
+  have hk : items.length = Py.stopIdx a.n e - Py.startIdx a.n s := by
+    rw [hlen]; simp only [Py.slice, hl, List.length_take, List.length_drop]; omega
+  obtain ⟨start1, h1'⟩ : ∃ x : Int, x = startOf s a.index := ⟨_, rfl⟩
+  have h1 : start1 = if s.getD 0 < 0 then max ((a.index + 1) + s.getD 0) 0 else s.getD 0 := h1' 
+  obtain ⟨stop2, h2⟩ : ∃ x : Int, x = stopOf e start1 items.length a.index := ⟨_, rfl⟩
+  obtain ⟨hTS, hcase⟩ := setSlice_bounds a.n a.array.length a.index hc hn s e items.length hk start1 stop2 h1 h2
+  have hT : Py.clampIdx a.array.length stop2 ≤ a.array.length := clampIdx_le _ _
+  have hSle : Py.clampIdx a.array.length start1 ≤ a.array.length := clampIdx_le _ _
+  generalize hS : Py.clampIdx a.array.length start1 = S at *
+  generalize hTT : Py.clampIdx a.array.length stop2 = T at *
+  have hfit : S + items.length ≤ a.array.length := by omega
+  -- the assignment on the backing array
+  have hassign : npAssign a.array start1 stop2 items = some (a.array.take S ++ items ++ a.array.drop (S + items.length)) := by
+    unfold npAssign
+    have hsl : (Py.slice a.array (some start1) (some stop2)).length = items.length := by
+      simp only [Py.slice, Py.startIdx, Py.stopIdx, hS, hTT, List.length_take, List.length_drop]; omega
+    simp only [hsl, if_true]
+    simp only [Py.setSlice, Py.startIdx, Py.stopIdx, hS, hTT, hTS, if_true]
+  have hset : a.setSlice s e items = .ok { a with array := a.array.take S ++ items ++ a.array.drop (S + items.length) } := by
+    rw [setSlice_unfold, ← h1', ← h2, hassign]
+  refine ⟨_, hset, ?_, ?_⟩
+  · -- the list view
+    have hcond : Py.stopIdx a.abs.length e - Py.startIdx a.abs.length s = items.length := by rw [hl]; omega
+    simp only [Py.setSlice, hcond, if_true, Option.some.injEq]
+    rw [hl]
+    show _ = (List.take S a.array ++ items ++ List.drop (S + items.length) a.array).take (a.index + 1).toNat
+    have hnn : (a.index + 1).toNat = a.n := rfl
+    rw [hnn]
+    rcases hcase with h0 | ⟨hSA, hAk⟩
+    · have hnil : items = [] := List.eq_nil_of_length_eq_zero h0
+      subst hnil
+      simp only [List.append_nil, List.length_nil, Nat.add_zero, List.take_append_drop]
+      rfl
+    · rw [← hSA]
+      have hSN : S + items.length ≤ a.n := by omega
+      unfold DynArray.abs
+      rw [hnn]
+      have e1 : (a.array.take a.n).take S = a.array.take S := by
+        rw [List.take_take]; congr 1; omega
+      have e2 : (a.array.take a.n).drop (S + items.length) = (a.array.drop (S + items.length)).take (a.n - (S + items.length)) :=
+        List.drop_take
+      have hXlen : (a.array.take S ++ items).length = S + items.length := by
+        simp only [List.length_append, List.length_take]; omega
+      rw [e1, e2, List.take_append, hXlen]
+      congr 1
+      exact (List.take_of_length_le (by rw [hXlen]; exact hSN)).symm
+  · have hL : (a.array.take S ++ items ++ a.array.drop (S + items.length)).length = a.array.length := by
+      simp only [List.length_append, List.length_take, List.length_drop]
+      clear hk hcase hTS hlen
+      omega
+    exact ⟨h.idx, by show _ ≤ (List.take S a.array ++ items ++ List.drop (S + items.length) a.array).length; rw [hL]; exact h.fits,
+      h.bpos, by show _ ≤ (List.take S a.array ++ items ++ List.drop (S + items.length) a.array).length; rw [hL]; exact h.cap⟩
+
 /-- `a.append(row)`: the list's append (with the drop-oldest rule when `drop_at` is set);
     never raises. -/
 theorem refines_append (a : DynArray) (h : Inv a) (r : Row)
